@@ -57,8 +57,22 @@ def kf_witnesses():
     return []
 
 
+def written_denotation(spec):
+    """What the written text of the mapset denotes (reference reading): objects and tempo points, ms rounded to 1e-6.
+    A denotation, not the bytes: a change of number formatting that denotes the same chart is not a change."""
+    from rv.gen import sm_mem as _sm
+    from rv.ref import sm as rsm
+
+    try:
+        d = rsm.parse_sm(_sm.build(spec).write())
+    except Exception as e:
+        return "raises " + type(e).__name__
+    return dict(tempo=[[round(float(t), 6), round(float(v), 6)] for t, v, _ in rsm.timeline(d).points()],
+                charts=[sorted([k, c, round(float(t), 6), None if ln is None else round(float(ln), 6)] for k, c, t, ln in rsm.chart_objects_ms(d, ch)) for ch in d["charts"]])
+
+
 def pinned(tier):
-    return [dict(cls="c_locale")] + [dict(cls="kf_witness", sm_spec=w["spec"], expected=w["sha256"], wid=i) for i, w in enumerate(kf_witnesses())]
+    return [dict(cls="c_locale")] + [dict(cls="kf_witness", sm_spec=w["spec"], expected=w["denotation"], wid=i) for i, w in enumerate(kf_witnesses())]
 
 
 def run(ctx, case):
@@ -67,17 +81,13 @@ def run(ctx, case):
         return fileio.check_c_locale(ctx, "C03", "sm")
     if case.get("cls") == "kf_witness":
         # inputs of the open finding KF-C03: what the writer gives for them is recorded, any change is reported
-        import hashlib
+        import json as _json
 
-        from rv.gen import sm_mem as _sm
         with ctx.quiet():
-            try:
-                got = hashlib.sha256(_sm.build(case["sm_spec"]).write().encode("utf8")).hexdigest()
-            except Exception as e:
-                got = "raises " + type(e).__name__
+            got = _json.loads(_json.dumps(written_denotation(case["sm_spec"])))
         if got != case["expected"]:
             ctx.violate("C03", "c03.kf_witness", "behaviour_changed",
-                        f"pinned input {case['wid']} of KF-C03-tempo-change-off-the-48th-beat-grid is no longer written as recorded (sha256 {case['expected'][:12]}.. -> {got[:12]}..)",
+                        f"pinned input {case['wid']} of KF-C03-tempo-change-off-the-48th-beat-grid: the written file no longer denotes what was recorded: recorded {str(case['expected'])[:200]}, now {str(got)[:200]}",
                         dict(spec=case["sm_spec"], recorded=case["expected"], now=got), dict(witness=True))
         else:
             ctx.held("c03.kf_witness", "recorded_output")
